@@ -115,6 +115,7 @@ func opStep(r *core.RNG, pool *Pool, s *Swarm, d *genDID, kind ref.OpKind, fault
 	if rx := r.Stream("signed-extra"); kind != ref.Create && fault != ref.FTypeConfusion && rx.Chance(1, 4) {
 		st.SignedExtra = genSignedExtra(rx, kind)
 	}
+	st.Respace = r.Stream("respace").Chance(1, 5)
 	st.Builder = "raw"
 	st.Via = "direct"
 	if fault == ref.FNone {
@@ -199,6 +200,9 @@ func GenFold(prop string, seed uint64, variant int, pool *Pool) *Plan {
 	p.Swarm = GenSwarm(r.Stream("swarm"), pool)
 	s := &p.Swarm
 	s.ChainMode = variant == 0 && r.Chance(1, 4)
+	if rs := r.Stream("soak"); variant == 0 && prop == "C01" && rs.Chance(1, 150) {
+		s.Soak, s.Observers = 1050+rs.Intn(400), 1
+	}
 	heavy := variant == 0 && r.Chance(1, 2)
 	if heavy {
 		s.NetDropPct, s.NetDupPct, s.NetMaxDelay = r.Intn(15), r.Intn(20), r.Intn(int(s.BlockInterval)*3)
